@@ -48,6 +48,20 @@ def check(ctx):
             closes = [e for e in effs if e['kind'] == 'streamop' and e['name'] == 'close']
             nopen += len(opens) + len(fopens)
             final = fld(TH, 'filename_')
+            # a stream (re)opened with the member function open(path) truncates that path just like
+            # the constructor does
+            reopens = [e for e in effs if e['kind'] == 'streamop' and e['name'] == 'open' and e.get('args')]
+            for ro in reopens:
+                pth = ro['args'][0]
+                w_ = '%s:callback::operator()' % ro['where']
+                if pth == final or any(l_ == final for l_ in (pth[2:] if isinstance(pth, tuple) and pth and pth[0] == 'ite' else ())):
+                    ctx.violation('R1.no_truncate_of_final_file', w_, 'the stream is (re)opened on `filename_` itself '
+                                  '(under %s): the only durable checkpoint is truncated and rewritten in place'
+                                  % (T.pretty(T.conj(ro['pc']))[:120] or 'every condition'),
+                                  {'crash_point': 'kill between this open() and the last write'})
+                else:
+                    raise AnalysisBroken('%s: stream re-opened on %s: protocol with a second file not modelled'
+                                         % (w_, T.pretty(pth)[:100]))
             if fopens:
                 raise AnalysisBroken('C stdio is used to write the checkpoint: protocol not modelled')
             if not opens:
